@@ -621,6 +621,26 @@ func VerifRpcextraHandle(line string) (res string) {
 			return "big"
 		}
 		return vErrPrefix(vForward(vWire(req.Body, req.extraStart)))
+	case op == "rpcextra.reqbig" && len(a) == 18:
+		n := vU64(a[0])
+		if n < 4 || n > 1<<26 {
+			return "bad-op"
+		}
+		body := make([]byte, n, n+256)
+		copy(body, []byte{1, 2, 3, 4})
+		req := &Request{Body: body, ActorID: int64(vU64(a[2])), Extra: vReqExtra(a[4:]), BodyFormatTL2: vBool(a[3])}
+		req.queryID = int64(vU64(a[1]))
+		if err := preparePacket(req); err != nil {
+			return "big"
+		}
+		total, es := len(req.Body), req.extraStart
+		hctx := &HandlerContext{}
+		hctx.Request = vWire(req.Body, req.extraStart)
+		opts := ServerOptions{DefaultResponseTimeout: vDefaultTimeout}
+		if err := hctx.ParseInvokeReq(&opts); err != nil {
+			return fmt.Sprintf("ok %d %d %s", total, es, vErrKind(err))
+		}
+		return fmt.Sprintf("ok %d %d ok %d %s", total, es, len(hctx.Request), sReqExtra(&hctx.RequestExtra))
 	case op == "rpcextra.parse" && len(a) == 1:
 		return vErrPrefix(vParseReq(vHex(a[0])))
 	case op == "rpcextra.resp" && len(a) == 19:
